@@ -33,7 +33,8 @@ AcceptsClause(W, m, call) ==
   ELSE ""
 
 (* signature identity: types, arity range, keyword names + requiredness *)
-SigNP(m) == <<m.pos, m.reqpos, m.kwn, m.kwt, m.kwreq>>
+(* (keyword-only parameters have no order: a call cannot tell `*, k, j` from `*, j, k`)   *)
+SigNP(m) == <<m.pos, m.reqpos, {<<m.kwn[j], m.kwt[j], m.kwreq[j]>> : j \in DOMAIN m.kwn}>>
 
 (* declared type of m at each position the call supplies *)
 AllSameOrSub(W, a, b, call) ==
